@@ -9,7 +9,7 @@ use crate::{
         DLT_STD_HDR_HAS_ECU_ID, DLT_STD_HDR_HAS_EXT_HDR, DLT_STD_HDR_HAS_TIMESTAMP,
         DLT_STD_HDR_VERSION, SERVICE_ID_GET_LOG_INFO,
     },
-    utils::{hex_to_bytes, US_PER_SEC},
+    utils::{hex_to_bytes, truncate_str, US_PER_SEC},
 };
 use chrono::NaiveDateTime;
 use lazy_static::lazy_static;
@@ -294,6 +294,8 @@ where
                         if let Some(mut data) = data {
                             payload.append(&mut data);
                         }
+                        // the payload needs to fit into the message
+                        payload.truncate((u16::MAX - self.len_wo_payload) as usize);
 
                         let index = self.index;
                         self.index += 1;
@@ -385,6 +387,8 @@ where
                         if let Some(mut data) = data {
                             payload.append(&mut data);
                         }
+                        // the payload needs to fit into the message
+                        payload.truncate((u16::MAX - self.len_wo_payload) as usize);
                         // return a DltMessage
                         let index = self.index;
                         self.index += 1;
@@ -494,7 +498,11 @@ where
                             let id_idx = 14 + comment[14..].find(' ').unwrap_or(1);
                             if let Some((id, name)) = comment[id_idx..].split_once('=') {
                                 if let Ok(id) = id.trim().parse::<u8>() {
-                                    let name = name.trim();
+                                    // the name needs to fit into the message (15 = service id, status, nr of apids, apid, nr of ctids, desc. len)
+                                    let name = truncate_str(
+                                        name.trim(),
+                                        (u16::MAX - self.len_wo_payload) as usize - 15,
+                                    );
                                     if let Some(log) = self.log {
                                         debug!(
                                         log,
